@@ -35,7 +35,7 @@ type E2ECase struct {
 	Tags         []string          `json:"tags,omitempty"`
 	Caps         []string          `json:"capitalizations,omitempty"`
 	Docs         []E2EDoc          `json:"docs"`
-	ExpectGen    string            `json:"expect_generator,omitempty"` // "" | "error" | "compiles"
+	ExpectGen    string            `json:"expect_generator,omitempty"`    // "" | "error" | "compiles"
 	GenTimeoutS  int               `json:"generator_timeout_s,omitempty"` // default 60
 }
 
